@@ -580,6 +580,26 @@ static void runCfg(Rng & rng, uint64_t caseNo, int cfgIndex)
 		Case c(rng, world, cfgIndex, C::valueTruth);
 		c.run(poolSize, domain, caseNo);
 	}
+	// prior memory (C20's dimension, checked here because this driver owns AnyId): an id that is DEFAULT-initialised
+	// (`new (p) Id;`, a member no constructor mentions) in storage that held arbitrary bytes must be the same id as Id()
+	if(! caseHasViolation()) {
+		typedef typename C::Id Id;
+		struct alignas(16) Raw { unsigned char b[sizeof(Id)]; };
+		static const unsigned char pats[4] = { 0xFF, 0xA5, 0x5C, 0x01 };
+		Raw r1, r2;
+		memset(r1.b, pats[rng.below(4)], sizeof r1.b);
+		{ Rng fill(rng.next()); for(size_t i = 0; i < sizeof r2.b; ++i) r2.b[i] = (unsigned char)fill.below(256); }
+		Id * a = new (r1.b) Id;
+		Id * b = new (r2.b) Id;
+		const Id v = Id();
+		const bool eqAB = *a == *b, eqAV = *a == v, ltAB = *a < *b, ltBA = *b < *a;
+		const std::size_t ha = std::hash<Id>()(*a), hb = std::hash<Id>()(*b), hv = std::hash<Id>()(v);
+		if(! eqAB || ! eqAV || ltAB || ltBA || ha != hb || ha != hv)
+			violation(std::string("prior-memory:default-initialised-ids-differ:storage=") + kStoreName[cfgIndex],
+				std::string(kCfgName[cfgIndex]) + ": two default-initialised ids in pre-filled storage: a==b " + num(eqAB) + ", a==Id() " + num(eqAV) + ", a<b " + num(ltAB) + ", b<a " + num(ltBA) + ", hashes " + unum(ha) + "/" + unum(hb) + "/" + unum(hv));
+		count("default_initialised_ids_checked", 2);
+		a->~Id(); b->~Id();
+	}
 	if(! caseHasViolation() && ledger().liveCount(K_CB) != 0)
 		violation("lifetime:callback-leaked-after-destruction", num(ledger().liveCount(K_CB)) + " callback instance(s) alive after the dispatchers were destroyed");
 }
